@@ -1,6 +1,7 @@
 /* join_same_entries (static in lib/getfilecontents.c; the real file is
- * #included so that the static function can be called) on three group-less
- * entries (C15).  -DVALS="xyz": value of each entry: n = absent, e = empty,
+ * #included so that the static function can be called) on three entries
+ * (C15), each in section [g] or [h] (symbolic, so that definitions of a key
+ * may be separated by an entry of another section).  -DVALS="xyz": value of each entry: n = absent, e = empty,
  * a = "a", b = " b" (leading blank).  Keys symbolic (k or m per entry).
  * Expected (statement): the value LIST of a key = the lines of all its
  * definitions since its last empty definition, in file order; a list is the
@@ -15,7 +16,8 @@
 #define VALS "aab"
 #endif
 #define NE 3
-unsigned char in_key[NE];
+unsigned char in_key[NE], in_grp[NE];
+#define SAME(i, j) (in_key[i] == in_key[j] && in_grp[i] == in_grp[j])
 
 static char *val_of(char c) { return c == 'n' ? NULL : c == 'e' ? strdup("") : c == 'a' ? strdup("a") : strdup(" b"); }
 static const char *line_of(char c) { return c == 'a' ? "a" : c == 'b' ? "b" : NULL; }   /* trimmed line, NULL = empty/absent */
@@ -27,11 +29,11 @@ int main(void)
   ef->file_entry = malloc(NE * sizeof(struct file_entry));
   __CPROVER_assume(ef->file_entry != NULL);
   ef->length = ef->alloc_length = NE;
-  char *grp = strdup("_none_");
+  char *grp[2] = { strdup("g"), strdup("h") };
   for (int i = 0; i < NE; i++) {
-    in_key[i] = nondet_bool();
+    in_key[i] = nondet_bool(); in_grp[i] = nondet_bool();
     struct file_entry *e = &ef->file_entry[i];
-    e->group = grp; e->key = strdup(in_key[i] ? "m" : "k"); e->value = val_of(VALS[i]);
+    e->group = grp[in_grp[i]]; e->key = strdup(in_key[i] ? "m" : "k"); e->value = val_of(VALS[i]);
     e->comment_before_key = NULL; e->comment_after_value = NULL; e->line_number = i + 1; e->quotes = false;
   }
   econf_err r = join_same_entries(ef);
@@ -40,13 +42,13 @@ int main(void)
   /* for the first definition of each key: the expected list of lines */
   for (int i = 0; i < NE; i++) {
     bool first = true;
-    for (int j = 0; j < i; j++) if (in_key[j] == in_key[i]) first = false;
+    for (int j = 0; j < i; j++) if (SAME(j, i)) first = false;
     if (!first) continue;
     const char *want[NE]; int nw = 0;
     bool later = false;
     if (line_of(VALS[i])) want[nw++] = line_of(VALS[i]);
     for (int j = i + 1; j < NE; j++)
-      if (in_key[j] == in_key[i]) {
+      if (SAME(j, i)) {
         later = true;
         if (line_of(VALS[j])) want[nw++] = line_of(VALS[j]); else nw = 0;   /* an empty definition resets */
       }
@@ -66,6 +68,7 @@ int main(void)
     }
     __CPROVER_assert(ok && got == nw, "C15: JOIN_SAME_ENTRIES: the value list is the lines of all definitions since the last empty one, in file order");
   }
+  VACUITY(SAME(0, 2) && in_grp[1] != in_grp[0], "key re-defined after an entry of another section reachable");
   VACUITY_END();
   return 0;
 }
